@@ -178,6 +178,18 @@ class AttendProbe:
         return type(self.service).attend_subscriptions(self.service)
 
 
+class TrashProbe:
+    """Counts calls of LDMMaintenance.collect_trash on ONE maintenance instance (explicit and reactive runs)."""
+
+    def __init__(self, maintenance):
+        self.maintenance = maintenance
+        self.count = 0
+
+    def __call__(self):
+        self.count += 1
+        return type(self.maintenance).collect_trash(self.maintenance)
+
+
 class Recorder:
     """Subscription callback: appends (key, virtual time, result code, records) to the shared log."""
 
@@ -191,7 +203,7 @@ class Recorder:
 
 
 class LdmWorld(World):
-    def __init__(self, database="Dictionary", db_dir=None, db_name=None, probe_attend=False):
+    def __init__(self, database="Dictionary", db_dir=None, db_name=None, probe_attend=False, probe_trash=False):
         super().__init__()
         self.database = database
         self.db_file = None
@@ -210,6 +222,10 @@ class LdmWorld(World):
         if probe_attend:
             self.attend_probe = AttendProbe(self.ldm.ldm_service)
             self.ldm.ldm_service.attend_subscriptions = self.attend_probe
+        self.trash_probe = None
+        if probe_trash:
+            self.trash_probe = TrashProbe(self.ldm.ldm_maintenance)
+            self.ldm.ldm_maintenance.collect_trash = self.trash_probe
 
     # -- helpers ----------------------------------------------------------------------------------------------
     def close(self):
